@@ -749,7 +749,7 @@ func init() {
 		map_get map_has map_get_ok map_get_or map_del map_set map_entries map_len map_unique
 		list_len list_get zrange_up zrange_down str_len take drop str_cut str_cut_opt str_index str_last_index str_contains
 		str_has_prefix str_has_suffix str_trim_prefix str_trim_suffix str_cut_prefix str_cut_suffix str_contains_any str_split str_join
-		ptr_map iface_assert bytes_of_str str_of_bytes list_slice err_dyn_in filepath_base strip_trailing_slashes take_until_slash err_has_typ err_same err_is err_as err_join anyv ANil AStr AInt ABool AOther AUncmp any_is_nil any_str any_int any_bool any_str_opt any_int_opt any_bool_opt anyv_eqb anyv_cmp_panics anyv_eq_opt str_slice str_get str_trim_space filepath_ext ext_rev re_match matches re time_zero time_is_zero time_after time_before time_equal
+		ptr_map iface_assert bytes_of_str str_of_bytes list_slice list_set ptr_deep_eqb list_deep_eqb map_deep_eqb err_dyn_in filepath_base strip_trailing_slashes take_until_slash err_has_typ err_same err_is err_as err_join anyv ANil AStr AInt ABool AOther AUncmp any_is_nil any_str any_int any_bool any_str_opt any_int_opt any_bool_opt anyv_eqb anyv_cmp_panics anyv_eq_opt str_slice str_get str_trim_space filepath_ext ext_rev re_match matches re time_zero time_is_zero time_after time_before time_equal
 		B bytes str_eqb has_prefix cut_byte contains_byte amap lookup lookup_default remove_key set_key mem_str opt_eqb list_eqb run_cases
 		RNone REps RBegin REnd RChar RClass RSeq RAlt RStar RPlus ROpt id plus minus mult le lt ge gt max min`) {
 		reservedCoq[w] = true
